@@ -271,8 +271,16 @@ class FullRunner(Runner):
         def add_datapoint(label, sub, dp):
             if runner.probing:
                 return None
-            runner.records.append((label, sub, dp))
-            return orig_add(label, sub, dp)
+            # every CALL is one occurrence: the series it names must afterwards be one entry longer and end with
+            # this very datapoint (also when an equal datapoint is already its last entry)
+            def series():
+                return env.simulation_data.get(label, {}).get(sub, ())
+            before = len(series())
+            r = orig_add(label, sub, dp)
+            after = series()
+            ok = len(after) == before + 1 and after[-1] == dp
+            runner.records.append((label, sub, dp, '' if ok else f' not-stored(series-grew-by={len(after) - before})'))
+            return r
         env.add_datapoint = add_datapoint
 
     # ---- registration bookkeeping -----------------------------------------------------------
@@ -807,8 +815,8 @@ class FullRunner(Runner):
 
     def flush_results(self):
         super().flush_results()
-        for label, sub, dp in self.records:
-            self.out.append(self.rec_line(label, sub, dp))
+        for label, sub, dp, marker in self.records:
+            self.out.append(self.rec_line(label, sub, dp) + marker)
         self.records = []
 
     def dump_ext(self):
@@ -993,6 +1001,30 @@ class MakerX(PartHandler):
                 runner.sassets.append(cls(name=f'K{len(runner.sassets)}'))
 
 
+class MakerRM(_rmmod.ResourceManager):
+    """a user ResourceManager whose start-up hook (`initialize`, called when the simulation starts for the first
+    time) constructs `n` assets -- like a manager that sets up the monitoring of its pools once it knows the
+    environment; the last one is a maker itself when depth > 1"""
+
+    def __init__(self, runner, n, depth):
+        super().__init__()
+        self._mk = (runner, n, depth)
+        self._made = False
+
+    def initialize(self, env):
+        super().initialize(env)
+        if self._made:
+            return
+        self._made = True
+        runner, n, depth = self._mk
+        for j in range(n):
+            if depth > 1 and j == n - 1:
+                runner.sassets.append(MakerX(runner, n, depth - 1))
+            else:
+                cls = [Sink, PartHandler, Source, Buffer][j % 4]
+                runner.sassets.append(cls(name=f'R{len(runner.sassets)}'))
+
+
 def _multi_sim(system, index):
     system.simulate(0, print_summary=False)
 
@@ -1035,6 +1067,10 @@ class SysRunner(FullRunner):
         try:
             if op == 'new':
                 self.systems.append(System())
+                self.out.append('sres ok')
+            elif op == 'newrm':
+                # a System with a user's ResourceManager whose start-up hook constructs assets
+                self.systems.append(System(resource_manager=MakerRM(self, int(toks[2]), int(toks[3]))))
                 self.out.append('sres ok')
             elif op == 'asset' and toks[2] == 'nester':
                 a = NesterX(self, int(toks[3]))
